@@ -251,6 +251,11 @@ R SPxSolverBase<R>::coTest(int i, typename SPxBasisBase<R>::Desc::Status stat) c
       assert(rep() == COLUMN);
       return this->maxRowObj(i) - (*theCoPvec)[i];             // slacks !
 
+   case SPxBasisBase<R>::Desc::P_FREE :
+      assert(rep() == COLUMN);
+      x = this->maxRowObj(i) - (*theCoPvec)[i];
+      return (x < 0) ? x : -x;
+
    default:
       return 0;
    }
@@ -690,14 +695,13 @@ void SPxSolverBase<R>::getEnterVals
 
       case SPxBasisBase<R>::Desc::P_FREE :
          assert(rep() == COLUMN);
-#if 1
-         throw SPxInternalCodeException("XENTER02 This should never happen.");
-#else
-         SPX_MSG_ERROR(std::cerr << "EENTER99 ERROR: not yet debugged!" << std::endl;)
+         enterUB = theURbound[enterIdx];
+         enterLB = theLRbound[enterIdx];
+         enterVal = 0;
          enterPric = (*theCoPvec)[enterIdx];
          enterRO = this->maxRowObj(enterIdx);
          ds.rowStatus(enterIdx) = SPxBasisBase<R>::Desc::D_UNDEFINED;
-#endif
+         enterMax = (enterRO - enterPric > 0) ? R(infinity) : R(-infinity);
          break;
 
       // dual/rowwise cases:
@@ -859,13 +863,8 @@ void SPxSolverBase<R>::getEnterVals2
 
       case SPxBasisBase<R>::Desc::P_FREE :
          assert(rep() == ROW);
-#if 1
-         throw SPxInternalCodeException("XENTER05 This should never happen.");
-#else
-         SPX_MSG_ERROR(std::cerr << "EENTER98 ERROR: not yet debugged!" << std::endl;)
 
-         if((*theCoPvec)[leaveIdx] - theLBbound[leaveIdx] <
-               theUBbound[leaveIdx] - (*theCoPvec)[leaveIdx])
+         if(theFvec->delta()[leaveIdx] * enterMax > 0)
          {
             leavebound = theLBbound[leaveIdx];
             theLRbound[idx] = leavebound;
@@ -877,7 +876,6 @@ void SPxSolverBase<R>::getEnterVals2
          }
 
          ds.rowStatus(idx) = SPxBasisBase<R>::Desc::D_UNDEFINED;
-#endif
          break;
 
       // primal/columnwise cases:
